@@ -122,6 +122,25 @@ CLAIMS['C17'] = dict(
     'pool creation, who-may-call pool API, cache-key dependence, try/except '
     'discipline', engine='E8-effects')
 
+CLAIMS['C15'] = dict(
+    category='proof',
+    text='Polynomial clauses proved for all inputs by exact polynomial '
+    'algebra on the lifted constructors: affine maps and prefactors, '
+    'mirror stores (including cached back links), tensor layout, Jacobian '
+    '= weight multiplier for all 2+1, 6+3 and 3 Duffy maps, push-forward '
+    'moments of Lebesgue measure compared exactly up to total degree 6/4 '
+    '(quick) and 12/7 (thorough), degree count D-1 / D-2, no in-place '
+    'update of shared base weights.  With C05 this is the exactness '
+    'theorem A.3.',
+    design_ref='DESIGN.md section 3 E5, section 4 C15, appendix A.3',
+    note='Trusted: ast, sympy polynomial arithmetic/integration, stated '
+    'index functions of numpy repeat/tile/kron/hstack, paper argument '
+    'A.3.  Not decided: monotone convergence on log-singular integrands; '
+    'push-forward moments beyond the tier degree.',
+    technique='symbolic evaluation of constructor bodies over the AST into '
+    'polynomial maps + exact Jacobian / moment identities',
+    engine='E5-quadalg')
+
 PENDING = 'rule set not yet implemented in this build (see DESIGN.md Appendix F for the order)'
 NA = {
     'C13':
@@ -144,6 +163,9 @@ ENGINES = [
     ('E8-effects', 'stbem_static/effects.py',
      'pools, module globals, cache key and cache I/O discipline; '
      'indexing.py for index spaces'),
+    ('E5-quadalg', 'stbem_static/quadalg.py',
+     'symbolic evaluation of scheme constructors; Jacobians and push-forward '
+     'moments in exact polynomial arithmetic'),
     ('E3-causal', 'stbem_static/causal.py',
      'causality guards and time-difference positivity over absint.py '
      '(path facts, Fourier-Motzkin entailment); kernels.py CAS certificates; '
